@@ -174,6 +174,7 @@ def emit_array(e, b_ord, a):
             e.op('dalias %d' % a.ord)
         elif dm.kind == 'frame':
             f = e.new('frame %d f_%s_%d t %d %s' % (b_ord, a.name, k, dm.rows, s(dm.colunit)))
+            dm.frame_ord = f
             e.op('ddf %d %d %s' % (a.ord, f, '-' if dm.col is None else str(dm.col)))
         for p in dm.post:
             post.append(p % {'a': a.ord, 'k': k})
@@ -182,11 +183,13 @@ def emit_array(e, b_ord, a):
     return post + [p % {'a': a.ord} for p in a.post]
 
 
-def emit(plan):
+def emit(plan, final=True):
     e = Emit()
     post = []
+    plan.ords = {}
     for (bname, arrays, tags, sources) in plan.blocks:
         b = e.new('block %s t' % bname)
+        plan.ords[('block', bname)] = b
         if ('block', bname) in plan.notype:
             post.append('h5 notype %d' % b)
         for a in arrays:
@@ -206,8 +209,10 @@ def emit(plan):
                 e.op('tunits %d %d %s' % (t.ord, len(t.units), ' '.join(s(x) for x in t.units)))
             if t.h5units is not None:
                 post.append(('h5 units %d %d %s' % (t.ord, len(t.h5units), ' '.join(s(x) for x in t.h5units))).rstrip())
+            t.feat_ords = []
             for (fa, lt, fpost) in t.feats:
                 f = e.new('feat %d %d %d' % (t.ord, fa.ord, lt))
+                t.feat_ords.append(f)
                 post += [p % {'f': f} for p in fpost]
             post += [p % {'t': t.ord} for p in t.post]
         stack = {}
@@ -218,13 +223,17 @@ def emit(plan):
     for (sname, parent, props) in plan.sections:
         so = e.new('section %s %s t' % ('-' if parent is None else secs[parent], sname))
         secs[sname] = so
+        plan.ords[('section', sname)] = so
         if ('section', sname) in plan.notype:
             post.append('h5 notype %d' % so)
         for (pname, nvals, unit) in props:
             p = e.new('prop %d %s %d' % (so, pname, nvals))
+            plan.ords[('prop', sname, pname)] = p
             if unit is not None:
                 e.op('punit %d %s' % (p, s(unit)))
     lines = e.lines + post
+    if not final:
+        return lines
     # every free function valid::validate(entity) on every entity: read-only before the file-level validation for a
     # quarter of the files, otherwise after it, alternately in a read-only and a read-write session
     if len(lines) % 4 == 0:
@@ -799,6 +808,171 @@ def loop_family():
     return cases
 
 
+
+# ----------------------------------------------------------------------------------------------
+# histories: build a conforming file, validate, EDIT so that the verdict of one rule flips, validate again, repair,
+# validate again ... all in one process; `vlive` validates in the session that stays open (the following edits go
+# through the handles that were alive during the validation), `validate` closes and reopens (fresh handles).  The
+# model validates the edited tree from scratch, so any state the library keeps between validations shows.
+
+def dim_lines(a, k, dm):
+    """the commands that append descriptor k of array a again (after deldims)"""
+    out = []
+    if dm.kind == 'set':
+        out.append(('dset %d %d %s' % (a.ord, len(dm.labels), ' '.join(s(x) for x in dm.labels))).rstrip())
+    elif dm.kind == 'samp':
+        out.append('dsamp %d %s' % (a.ord, d(dm.interval)))
+        if dm.unit is not None:
+            out.append('dunit %d %d %s' % (a.ord, k, s(dm.unit)))
+        if dm.offset is not None:
+            out.append('doffset %d %d %s' % (a.ord, k, d(dm.offset)))
+    elif dm.kind == 'range':
+        out.append('drange %d %d %s' % (a.ord, len(dm.ticks), ' '.join(d(x) for x in dm.ticks)))
+        if dm.unit is not None:
+            out.append('dunit %d %d %s' % (a.ord, k, s(dm.unit)))
+    elif dm.kind == 'frame':
+        out.append('ddf %d %d %s' % (a.ord, dm.frame_ord, '-' if dm.col is None else str(dm.col)))
+    return out
+
+
+def history_edits(rnd, plan):
+    """candidate edits of a built conforming plan: list of (name, [breaking commands], [repairing commands])"""
+    out = []
+    arrays = [a for a in all_arrays(plan) if not a.name.startswith(('pos_', 'ext_'))]
+    for t in all_tags(plan):
+        if t.units and t.refs:
+            a = t.refs[0]
+            k = rnd.randrange(len(a.dims))
+            dm = a.dims[k]
+            bad = rnd.choice(ATOMIC[other_base(rnd, dm.base)])
+            # the unit of a referenced dimension (seeded change C19-B3), through the setter ...
+            out.append(('dimunit', ['dunit %d %d %s' % (a.ord, k + 1, s(bad))], ['dunit %d %d %s' % (a.ord, k + 1, s(dm.unit))]))
+            # ... by removing it (no unit: nothing to compare with) and setting a foreign one again
+            out.append(('dimunit-none', ['dnounit %d %d' % (a.ord, k + 1), 'dunit %d %d %s' % (a.ord, k + 1, s(bad))],
+                        ['dnounit %d %d' % (a.ord, k + 1), 'dunit %d %d %s' % (a.ord, k + 1, s(dm.unit))]))
+            # ... and by deleting all descriptors and appending them again with one unit changed
+            if all(x.kind in ('samp', 'range') for x in a.dims):
+                good = ['deldims %d' % a.ord] + sum([dim_lines(a, i + 1, x) for i, x in enumerate(a.dims)], [])
+                keep = dm.unit
+                dm.unit = bad
+                brk = ['deldims %d' % a.ord] + sum([dim_lines(a, i + 1, x) for i, x in enumerate(a.dims)], [])
+                dm.unit = keep
+                out.append(('dimunit-reappend', brk, good))
+            # the tag's own units
+            i = rnd.randrange(len(t.units))
+            u = list(t.units)
+            u[i] = rnd.choice(ATOMIC[other_base(rnd, t.refs[0].dims[i].base)])
+            out.append(('tagunits', ['tunits %d %d %s' % (t.ord, len(u), ' '.join(s(x) for x in u))],
+                        ['tunits %d %d %s' % (t.ord, len(t.units), ' '.join(s(x) for x in t.units))]))
+            out.append(('tagunits-none', ['tunits %d %d %s' % (t.ord, len(u), ' '.join(s(x) for x in u))], ['tunits %d 0' % t.ord]))
+            if len(t.refs) > 1:
+                # a reference whose dimension has a foreign unit comes and goes
+                out.append(('unref', ['dunit %d %d %s' % (a.ord, k + 1, s(bad))],
+                            ['unref %d %d' % (t.ord, a.ord), 'dunit %d %d %s' % (a.ord, k + 1, s(dm.unit)), 'ref %d %d' % (t.ord, a.ord)]))
+        for fo, (fa, lt, fpost) in zip(getattr(t, 'feat_ords', []), t.feats):
+            out.append(('featdata', ['h5 nodata %d' % fo], ['fdata %d %d' % (fo, fa.ord)]))
+        if t.multi:
+            out.append(('positions', ['h5 nopositions %d' % t.ord], ['mpositions %d %d' % (t.ord, t.pos.ord)]))
+        out.append(('tagtype', ['h5 notype %d' % t.ord], ['etype %d t' % t.ord]))
+    for a in arrays:
+        if a.dims and a.dims[0].kind == 'alias':
+            n = a.extent[0]
+            if n >= 2:
+                up = [float(i) for i in range(n)]
+                dn = list(up)
+                dn[0], dn[1] = dn[1], dn[0]
+                out.append(('aliasdata', ['adata %d %d %s' % (a.ord, n, ' '.join(d(x) for x in dn))],
+                            ['adata %d %d %s' % (a.ord, n, ' '.join(d(x) for x in up))]))
+            continue
+        for k, dm in enumerate(a.dims, 1):
+            n = a.extent[k - 1]
+            if dm.kind == 'set':
+                lab = lambda m: ('dlabels %d %d %d %s' % (a.ord, k, m, ' '.join(s('y%d' % i) for i in range(m)))).rstrip()
+                out.append(('labels', [lab(n + 1)], [lab(rnd.choice([n, 0]))]))
+            elif dm.kind == 'range':
+                tk = lambda m: 'dticks %d %d %d %s' % (a.ord, k, m, ' '.join(d(float(i)) for i in range(m)))
+                out.append(('ticks', [tk(n + 2)], [tk(n)]))
+                tt = [float(i) for i in range(n)]
+                if n >= 2:
+                    un = list(tt)
+                    un[-1], un[-2] = un[-2], un[-1]
+                    out.append(('unsorted', ['h5 ticks %d %d %d %s' % (a.ord, k, n, ' '.join(d(x) for x in un))], [tk(n)]))
+            elif dm.kind == 'samp':
+                out.append(('interval', ['h5 interval %d %d %s' % (a.ord, k, d(-1.0))], ['dinterval %d %d %s' % (a.ord, k, d(0.25))]))
+                if dm.unit is None:
+                    out.append(('offset-soft', ['doffset %d %d %s' % (a.ord, k, d(1.5))], ['dnooffset %d %d' % (a.ord, k)]))
+            elif dm.kind == 'frame':
+                out.append(('rows', ['frows %d %d' % (dm.frame_ord, n + 1)], ['frows %d %d' % (dm.frame_ord, n)]))
+        if a.dims:
+            ext = list(a.extent)
+            k = rnd.randrange(len(ext))
+            if a.dims[k].kind in ('range', 'frame') or (a.dims[k].kind == 'set' and a.dims[k].labels):
+                ext2 = list(ext)
+                ext2[k] += 1
+                fmt = lambda e: 'aextent %d %d %s' % (a.ord, len(e), ' '.join(str(x) for x in e))
+                out.append(('extent', [fmt(ext2)], [fmt(ext)]))
+            if all(x.kind != 'frame' or True for x in a.dims):
+                again = ['deldims %d' % a.ord] + sum([dim_lines(a, i + 1, x) for i, x in enumerate(a.dims)], [])
+                out.append(('dimcount', ['dset %d 0' % a.ord], again))
+        out.append(('arrayunit-soft', ['aunit %d %s' % (a.ord, s('spikes'))], ['aunit %d %s' % (a.ord, s(a.unit or 'mV'))]))
+        if not a.poly and not a.origin:
+            out.append(('calibration-soft', ['apoly %d 2' % a.ord], ['anopoly %d' % a.ord]))
+            out.append(('calibration-soft', ['aorigin %d' % a.ord], ['anoorigin %d' % a.ord]))
+        out.append(('arraytype', ['h5 notype %d' % a.ord], ['etype %d t' % a.ord]))
+    for (sname, parent, props) in plan.sections:
+        for (pname, nvals, unit) in props:
+            po = plan.ords[('prop', sname, pname)]
+            if nvals and unit:
+                out.append(('propunit-soft', ['pnounit %d' % po], ['punit %d %s' % (po, s(unit))]))
+                out.append(('propunit-nonsi', ['punit %d %s' % (po, s('spikes'))], ['punit %d %s' % (po, s(unit))]))
+            if not nvals:
+                out.append(('propvalues-soft', ['pvalues %d 2' % po], ['pvalues %d 0' % po]))
+    return out
+
+
+def history_case(rnd, size, rounds):
+    p = make_plan(rnd, size)
+    lines = emit(p, final=False)
+    used = set()
+    # edits of arrays that were touched by an earlier edit of another class are avoided: one rule flips per round
+    lines.append(rnd.choice(['validate', 'vlive', 'vlive']))
+    names = []
+    for _ in range(rounds):
+        cands = [e for e in history_edits(rnd, p) if e[0] not in used]
+        if not cands:
+            break
+        pick = rnd.choice(sorted(set(e[0] for e in cands)))          # every edit class equally likely
+        name, brk, fix = rnd.choice([e for e in cands if e[0] == pick])
+        used.add(name)
+        names.append(name)
+        lines += brk
+        lines.append(rnd.choice(['validate', 'vlive', 'vlive']))
+        if rnd.random() < 0.3:
+            lines.append('entities ' + rnd.choice(['ro', 'rw']))
+        lines += fix
+        lines.append(rnd.choice(['validate', 'vlive', 'vlive']))
+    return Case(lines, 'history')
+
+
+def directed_histories():
+    """the smallest histories for the unit cache of seeded change C19-B3 and its mirror image"""
+    cases = []
+    for multi in (False, True):
+        for live in ('vlive', 'validate'):
+            for start_bad in (False, True):
+                a = _arr('a0', EXT[2], ['samp', 'range'])
+                arrays = [a]
+                t = _tag('t0', multi, [a], ['s', 'ms'], arrays, 2)
+                p = _one_block(arrays, [t])
+                lines = emit(p, final=False)
+                bad = 'dunit %d 1 %s' % (a.ord, s('mV'))
+                good = 'dunit %d 1 %s' % (a.ord, s('s'))
+                seq = [bad, good, bad] if start_bad else [good, bad, good]
+                for x in seq:
+                    lines += [x, live]
+                cases.append(Case(lines, 'history-directed'))
+    return cases
+
 def pinned_family():
     """the smallest files for the tag-unit rule: a 2-D / 3-D reference whose dimensions all have unit s (or ms),
     tag (or multi-tag) units with one non-convertible entry at every index"""
@@ -856,7 +1030,8 @@ class C19(Prop):
                   'to the partial statement, and the full statement proved for the repaired variant.')
     technique = ('Coq proof over a validator model whose rule tables are proved equal to tables regenerated from src/valid/validate.cpp '
                  'on every run + correspondence on generated nix files with breach injection')
-    nontrivial_rule = ('first a directed family (every loop of checks.cpp, of the rule tables and of File::validate with the '
+    nontrivial_rule = ('histories (build, validate, an edit that flips one rule, validate again, repair, validate ... in one process, in the open '
+                       'session through kept-alive handles or after a reopen) and single files; first a directed family (every loop of checks.cpp, of the rule tables and of File::validate with the '
                        'breaching dimension / unit / reference / sibling entity at the first, a middle and the last position, all '
                        'other elements fine), then random files: a case is a complete nix file (1-3 blocks, rank 1-3 arrays with set/sampled/range/alias/data-frame dimensions, '
                        'tags and multi-tags with units/extents/features, nested sources, nested sections with properties) built '
@@ -885,6 +1060,7 @@ class C19(Prop):
             cases += pinned_family()
             cases += loop_family()
             cases += untouched_family()
+            cases += directed_histories()
         k = scale * (1 if tier == 'quick' else 20)
         # conforming files
         for i in range(40 * k):
@@ -902,6 +1078,9 @@ class C19(Prop):
         family('hard-', HARD, 10 * k)
         family('soft-', SOFT, 8 * k)
         family('other-', OTHER, 6 * k)
+        # histories: validate, edit, validate again in one process
+        for i in range(40 * k):
+            cases.append(history_case(rnd, i % 2, rnd.randint(2, 5)))
         # combinations
         for i in range(70 * k):
             p = make_plan(rnd, 1 + i % 2)
@@ -1025,6 +1204,24 @@ class C19(Prop):
                       'Message::id == entity id on every message'):
                 ep[r] = ep.get(r, 0) + 1
         ctx['ev']['entry_points'] = dict(sorted(ep.items()))
+        # histories: validations per case and the editing commands that ran between two validations of one process
+        EDITS = ('dunit', 'dnounit', 'deldims', 'tunits', 'unref', 'ref', 'fdata', 'mpositions', 'etype', 'adata', 'dlabels', 'dticks',
+                 'dinterval', 'doffset', 'dnooffset', 'frows', 'aextent', 'dset', 'aunit', 'apoly', 'anopoly', 'aorigin', 'anoorigin',
+                 'pnounit', 'punit', 'pvalues', 'h5')
+        hist = {'cases': 0, 'validations': 0, 'in_open_session(vlive)': 0, 'edit_commands': {}}
+        for c in cases:
+            cmds = [l.split(' ')[0] for l in c.lines]
+            nv = sum(1 for k in cmds if k in ('validate', 'vlive'))
+            if nv < 2:
+                continue
+            hist['cases'] += 1
+            hist['validations'] += nv
+            hist['in_open_session(vlive)'] += cmds.count('vlive')
+            first = min(i for i, k in enumerate(cmds) if k in ('validate', 'vlive'))
+            for k in cmds[first:]:
+                if k in EDITS:
+                    hist['edit_commands'][k] = hist['edit_commands'].get(k, 0) + 1
+        ctx['ev']['histories'] = hist
         ctx['ev']['entry_points_note'] = ('descriptor routes are counted per descriptor the script creates (a few are unlinked again by raw '
                                           'HDF5 before the call); the library has no validate for Group, DataFrame and DataFrameDimension')
         ctx['ev']['clauses_judged_on_implementation'] = {k: v // 1 for k, v in sorted(self.clause_counts.items())}
